@@ -467,7 +467,7 @@ func (m *c16) sequences() {
 		}
 		c.Exhaustive(fmt.Sprintf("%s: all ordered pairs of %d operations", probe.typ, nops))
 		// seeded triples and longer
-		n := c.Pick(40, 1500)
+		n := c.Pick(40, 5000)
 		for i := 0; i < n; i++ {
 			if !c.Next() {
 				continue
